@@ -30,6 +30,7 @@ Definition K_KILL : N := 9.  Definition K_START : N := 10. Definition K_REVNOWAI
 Definition A_ACCEPT : N := 0. Definition A_WRONGKEY : N := 1. Definition A_BADSIG : N := 2. Definition A_SUBERR : N := 3.
 Definition A_APIERR : N := 4.
 Definition R_GOOD : N := 0.  Definition R_NOTEXT : N := 2. Definition R_NOTEXT_SLOTS : N := 5. Definition R_NOTEXT_EXPIRY : N := 6.
+Definition R_GARBAGE : N := 3. Definition R_APIERR : N := 4.
 Definition C_DOWN : N := 20.
 
 (* a violation: (check code, step index, tower, locator) *)
@@ -85,8 +86,11 @@ Definition mon_c05 (sc : scen) : list viol :=
    disagrees with what was stored); 1403 a stored registration receipt does not verify; 1404 a stored
    registration does not come from a verifying reply that strictly extends (expiry and slots) what was known;
    1405 a tower answered with a signature of another key and is not flagged (proof + misbehaving) at the next
-   settle point; 1406 a request reached a tower after its misbehaviour proof was stored; 1407 the plugin did not
-   answer (crashed / wedged handler). *)
+   settle point (detail 0), or a tower whose proof is stored is not shown misbehaving at a settle point, e.g. after a
+   restart (detail 1); 1406 a request reached a tower after its misbehaviour proof was stored (also across restarts);
+   1407 the plugin did not answer (crashed / wedged handler).
+   A registration reply of class 7 (a receipt the tower signed correctly, strictly extending, for ANOTHER user) is not a
+   good-signature class: storing it is 1401 / 1403 / 1404. *)
 Definition rr_rows (d : db) (t : N) : list row :=
   filter (fun r => N.eqb (col r C_registration_receipts_tower_id) t) (tbl d T_registration_receipts).
 Definition max_expiry (d : db) (t : N) : N :=
@@ -170,9 +174,14 @@ Definition c14_step (last : N) (m : m14) (ist : N * cstep) : m14 :=
   let flagged (t : N) : bool :=
     has_proof d t && (negb (ob_alive o) || match lt_status o t with Some Misbehaving => true | _ => false end) in
   let v_flag := if settle then flat_map (fun t => if flagged t || negb (tower_row d t) then [] else [(1405, i, t, 0)]) wk1 else [] in
+  (* ... and stays flagged: at every settle point a tower whose proof is stored is shown misbehaving (also after a restart) *)
+  let v_kept := if settle && up && ob_alive o then
+                  flat_map (fun t => if has_proof d t && negb (match lt_status o t with Some Misbehaving => true | _ => false end)
+                                     then [(1405, i, t, 1)] else []) (db_towers d)
+                else [] in
   let proven1 := fold_left (fun acc t => if has_proof d t then set_add t acc else acc) (db_towers d) proven0 in
   {| m4_prev := o; m4_up := up; m4_wk := if settle then [] else wk1; m4_proven := proven1;
-     m4_out := m4_out m ++ v_alive ++ v_sig ++ v_new ++ v_gate ++ v_after ++ v_flag |}.
+     m4_out := m4_out m ++ v_alive ++ v_sig ++ v_new ++ v_gate ++ v_after ++ v_flag ++ v_kept |}.
 
 Definition mon_c14 (sc : scen) : list viol :=
   let steps := index_from 0 (sc_steps sc) in
@@ -189,7 +198,11 @@ Definition GIVEUP_SLACK_MS : N := 4000.
 
 (* 1301 two retry loops (duplicate sends of one locator within DUP_GAP_MS); 1302 flooding (no back-off);
    1303 pending data not delivered / tower not shown reachable within max-retry + auto-retry + slack after the
-   tower recovered; 1304 a tower that keeps failing is not shown unreachable after max-retry + slack;
+   tower recovered (detail 2: a tower left in `subscription error` by a refused renewal, healthy now, still has
+   pending data that long after an accepted retrytower / a new revocation issued from a settled state);
+   1304 a tower that keeps failing is not shown unreachable after max-retry + slack (failing = down, answering
+   garbage, or: answering `subscription error` while its register endpoint fails transiently, counted from the
+   event that started the retry loop);
    1305 retrytower accepted / refused against the documented states; 1306 a tower is still shown `temporary
    unreachable` (= being retried) when a settle step reaches its cap of 2 x max-retry + interval + 3 s, i.e. long
    after any retry loop must have delivered or given up: the status is not truthful / a loop never ends. *)
@@ -241,7 +254,11 @@ Record tw := mk_tw { tw_up : bool; tw_add : N; tw_reg : N; tw_acc : option N; tw
 Definition hard_fail_class (c : N) : bool :=
   N.eqb c A_BADSIG || N.leb 5 c.     (* undecodable signature, garbage, wrong shape, empty, huge, reset, wrong types *)
 Definition tw_accepting (w : tw) : bool := tw_up w && N.eqb (tw_add w) A_ACCEPT && N.eqb (tw_reg w) R_GOOD.
-Definition tw_failing (w : tw) : bool := negb (tw_up w) || hard_fail_class (tw_add w).
+(* the tower answers add_appointment with `subscription error` and its register endpoint fails TRANSIENTLY (garbage, API
+   error): a retry loop can neither renew nor deliver, it must give up like against a tower that is down *)
+Definition tw_subfail (w : tw) : bool :=
+  tw_up w && N.eqb (tw_add w) A_SUBERR && (N.eqb (tw_reg w) R_GARBAGE || N.eqb (tw_reg w) R_APIERR).
+Definition tw_failing (w : tw) : bool := negb (tw_up w) || hard_fail_class (tw_add w) || tw_subfail w.
 Definition tw_retime (w : tw) (now : N) (force : bool) : tw :=
   {| tw_up := tw_up w; tw_add := tw_add w; tw_reg := tw_reg w;
      tw_acc := if tw_accepting w then (match tw_acc w with Some x => if force then Some now else Some x | None => Some now end) else None;
@@ -250,6 +267,9 @@ Definition tw_retime (w : tw) (now : N) (force : bool) : tw :=
 Record m13 := mk_m13 {
   m3_tw : amap tw; m3_up : bool; m3_prev : cstep; m3_have_prev : bool;
   m3_pend_since : amap N;     (* tower -> ms of the first observation since which it has had pending rows continuously (and no retry/start) *)
+  m3_settled : bool;          (* nothing has been asked of the plugin since the last settle point (tower script changes and sleeps aside) *)
+  m3_kick : amap N;           (* tower -> ms of the last event, issued from a settled state, that makes the plugin (re)start retrying it:
+                                 an ACCEPTED retrytower of the tower, a commitment_revocation *)
   m3_out : list viol }.
 
 Definition get_tw (m : amap tw) (t : N) : tw :=
@@ -276,6 +296,16 @@ Definition c13_step (sc : scen) (m : m13) (ist : N * cstep) : m13 :=
       map (fun x : N => (x, tw_retime (get_tw (m3_tw m) x) now true)) (towers_upto (sc_nt sc))
     else m3_tw m in
   let up := if N.eqb k K_START then N.eqb (ss_res st) 0 else if N.eqb k K_KILL then false else m3_up m in
+  (* kicks *)
+  let kick0 := if N.eqb k K_KILL || N.eqb k K_START then []
+               else if N.eqb k K_ABANDON || N.eqb k K_REG then aremove (m3_kick m) t else m3_kick m in
+  let kicks :=
+    if m3_settled m && m3_up m && ob_alive o && N.eqb (ss_res st) 0 then
+      if N.eqb k K_RETRY then aset kick0 t now
+      else if N.eqb k K_REV then fold_left (fun acc kv => aset acc (fst kv) now) (ob_lt (ss_obs (m3_prev m))) kick0
+      else kick0
+    else kick0 in
+  let settled := (is_settle_step st) || (m3_settled m && (N.eqb k K_MODE || N.eqb k K_UP || N.eqb k K_SLEEP)) in
   (* delivery after recovery *)
   let dlim := 1000 * (sc_max_retry sc + sc_auto sc + 2 * sc_interval sc) + DELIVER_SLACK_MS in
   let v_deliver :=
@@ -288,6 +318,13 @@ Definition c13_step (sc : scen) (m : m13) (ist : N * cstep) : m13 :=
             match su_status su with
             | Reachable => match su_pending su with [] => [] | _ => [(1303, i, x, 0)] end
             | TemporaryUnreachable | Unreachable => [(1303, i, x, 1)]
+            | SubscriptionError =>
+              (* a tower left with a subscription error (renewal refused for good earlier) that is healthy now and has been
+                 kicked since (from a settled state): the retry loop renews and delivers *)
+              match su_pending su, aget kicks x with
+              | _ :: _, Some kt => if N.leb since kt && N.leb (kt + dlim) now then [(1303, i, x, 2)] else []
+              | _, _ => []
+              end
             | _ => []
             end
           else []
@@ -312,7 +349,10 @@ Definition c13_step (sc : scen) (m : m13) (ist : N * cstep) : m13 :=
         let (x, su) := kv in
         match tw_bad (get_tw tws x), aget pend_since x with
         | Some bad, Some ps =>
-          if N.leb (N.max bad ps + glim) now then
+          (* (for the subscription-error pattern only once a retry loop has certainly been started since: a kick) *)
+          if N.leb (N.max bad ps + glim) now &&
+             (negb (tw_subfail (get_tw tws x)) ||
+              match aget kicks x with Some kt => N.leb bad kt && N.leb (kt + glim) now | None => false end) then
             match su_status su with
             | Unreachable | Misbehaving => []
             | _ => [(1304, i, x, tower_status_code (su_status su))]
@@ -337,6 +377,7 @@ Definition c13_step (sc : scen) (m : m13) (ist : N * cstep) : m13 :=
       flat_map (fun kv : N * summary => match su_status (snd kv) with TemporaryUnreachable => [(1306, i, fst kv, 0)] | _ => [] end) (ob_lt o)
     else [] in
   {| m3_tw := tws; m3_up := up; m3_prev := st; m3_have_prev := true; m3_pend_since := pend_since;
+     m3_settled := settled; m3_kick := kicks;
      m3_out := m3_out m ++ v_deliver ++ v_giveup ++ v_gate ++ v_cap |}.
 
 Definition mon_c13 (sc : scen) : list viol :=
@@ -345,4 +386,4 @@ Definition mon_c13 (sc : scen) : list viol :=
   first_viol (dup_pairs sds) ++ first_viol (flood sds) ++
   m3_out (fold_left (c13_step sc) steps
             {| m3_tw := []; m3_up := false; m3_prev := mk_cstep 0 0 0 0 0 empty_cobs; m3_have_prev := false;
-               m3_pend_since := []; m3_out := [] |}).
+               m3_pend_since := []; m3_settled := false; m3_kick := []; m3_out := [] |}).
